@@ -47,6 +47,7 @@ SIZES = {
     'quick': dict(nh=22, nh3=8, dims=(1, 2), dims3=('shepard', 'order1'),
                   narrs=(1, 2), shipped=('CubicSpline', 'Gaussian'),
                   shipped_methods=('shepard', 'splash_norm'), nh_ship=16,
+                  periodic=('shepard', 'sph', 'order1'), nh_per=12,
                   design=('Interp.hist.cfg', 'Interp.f1.cfg',
                           'Interp.f2.cfg'), design_workers=4),
     'thorough': dict(nh=150, nh3=60, dims=(1, 2), dims3=METHODS,
@@ -54,7 +55,7 @@ SIZES = {
                      shipped=('CubicSpline', 'Gaussian', 'QuinticSpline',
                               'WendlandQuintic'),
                      shipped_methods=('shepard', 'splash_norm', 'sph'),
-                     nh_ship=80,
+                     nh_ship=80, periodic=METHODS, nh_per=80,
                      design=('Interp.hist.cfg', 'Interp.f1.cfg',
                              'Interp.f2big.cfg'), design_workers=6),
 }
@@ -71,10 +72,16 @@ def span(dim, method=None):
     return {1: 9, 2: 4, 3: 3}[dim]
 
 
+PER = None      # periods of the session being generated ([Lx, Ly, Lz])
+
+
 def rand_coord(rng, dim, lo, hi):
     c = [0, 0, 0]
     for k in range(dim):
-        c[k] = rng.randint(lo, hi)
+        if PER and PER[k]:
+            c[k] = rng.randint(0, PER[k] - 1)      # inside the periodic box
+        else:
+            c[k] = rng.randint(lo, hi)
     return c
 
 
@@ -116,7 +123,8 @@ def set_field(rng, src, dim, kind):
     b = [0, 0, 0]
     if kind == 'linear':
         for k in range(dim):
-            b[k] = rng.randint(-2, 2)
+            # (no slope along a periodic axis: the images carry the values)
+            b[k] = 0 if PER and PER[k] else rng.randint(-2, 2)
     for a in src:
         for q in a['p']:
             q['f'] = a0 + b[0] * q['x'] + b[1] * q['y'] + b[2] * q['z']
@@ -156,6 +164,8 @@ def gen_history(rng, cfg, hid, first, family='plain'):
     else:
         ue = rng.choice((0, 0, -3, 2, 5, -7))
     org = [rng.randint(-4, 4) if k < dim else 0 for k in range(3)]
+    if cfg.get('per_fixed'):
+        ue, org = cfg['per_fixed']
     st = dict(src=gen_src(rng, names, dim, tiny, first, maxn, method),
               pts=gen_pts(rng, dim, api, method))
     st['lin'] = set_field(rng, st['src'], dim, field_kind(rng, method))
@@ -225,10 +235,16 @@ def gen_sessions(tier, rng):
     sz = SIZES[tier]
     sessions = []
 
-    def add(api, method, dim, kernel, narr, nh, tiny=0, order=0):
+    def add(api, method, dim, kernel, narr, nh, tiny=0, order=0, per=None):
+        global PER
         cfg = dict(api=api, method=method, dim=dim, kernel=kernel,
                    names=list(NAMES[:narr]), exact=(kernel == 'probe'),
-                   rs=RS[kernel])
+                   rs=RS[kernel], per=per or [0, 0, 0])
+        PER = per
+        if per:
+            cfg['per_fixed'] = (rng.choice((0, -2, 1)),
+                                [rng.randint(-4, 4) if k < dim else 0
+                                 for k in range(3)])
         sid = 's%d' % len(sessions)
         hs = []
         for i in range(nh + tiny + order):
@@ -239,6 +255,7 @@ def gen_sessions(tier, rng):
                 fam = 'order'
             hs.append(gen_history(rng, cfg, '%s-h%d' % (sid, i), i == 0, fam))
         sessions.append(dict(sid=sid, cfg=cfg, histories=hs))
+        PER = None
 
     for method in METHODS:
         for dim in sz['dims']:
@@ -255,11 +272,83 @@ def gen_sessions(tier, rng):
         for dim in sz['dims']:
             add('eval', method, dim, 'probe', 2, sz['nh'],
                 order=1 if dim == 1 else 0)
+    # periodic domains (DomainManager): 1-D, and 2-D periodic in x
+    for method in sz['periodic']:
+        add('interp', method, 1, 'probe', 1, sz['nh_per'], per=[10, 0, 0])
+        add('interp', method, 2, 'probe', 2, sz['nh_per'], per=[6, 0, 0])
     for kernel in sz['shipped']:
         for method in sz['shipped_methods']:
             for dim in (2, 3) if kernel == 'WendlandQuintic' else sz['dims']:
                 add('interp', method, dim, kernel, 1, sz['nh_ship'])
     return sessions
+
+
+def claim_linear(src):
+    """The linear form an emitted 1-D source set happens to satisfy, if any
+    (TLC checks the claim: SaneState of Interp.tla)."""
+    ps = [q for a in src for q in a['p']]
+    xs = sorted(set(q['x'] for q in ps))
+    no = dict(a=0, b=[0, 0, 0]) | {'is': False}
+    if len(xs) == 1:
+        if len(set(q['f'] for q in ps)) != 1:
+            return no
+        return dict(a=ps[0]['f'], b=[0, 0, 0]) | {'is': True}
+    p0 = next(q for q in ps if q['x'] == xs[0])
+    p1 = next(q for q in ps if q['x'] == xs[1])
+    if (p1['f'] - p0['f']) % (xs[1] - xs[0]):
+        return no
+    b = (p1['f'] - p0['f']) // (xs[1] - xs[0])
+    a = p0['f'] - b * xs[0]
+    if any(q['f'] != a + b * q['x'] for q in ps):
+        return no
+    return dict(a=a, b=[b, 0, 0]) | {'is': True}
+
+
+def universe_sessions(chk, rng, per_history=16):
+    """Spec -> code: every source set of the small 1-D universe, printed by
+    TLC (InterpMC with Interp.emit.cfg), through the real Interpolator with
+    every method, at all lattice points within reach; the sets follow one
+    another on a live object by update_particle_arrays (every fourth one by
+    a Reset: new arrays and new points).  quick: every set with one of the
+    five methods; thorough: every set with every method."""
+    r = tlc.run('InterpMC', 'Interp.emit.cfg', workers=4, timeout=1200)
+    if not r['ok']:
+        raise MachineryError('universe enumeration failed:\n' +
+                             r['out'][-2500:])
+    cases = tlc.parse_prints(r['out'], 'CASE')
+    if len(cases) < 1000:
+        raise MachineryError('universe enumeration: %d cases' % len(cases))
+    rng.shuffle(cases)
+    pts = [dict(x=x, y=0, z=0, h=0) for x in range(-2, 6)]
+    sessions = []
+    parts = []
+    for mi, method in enumerate(METHODS):
+        if chk.tier == 'quick':
+            parts.append((method, 0, cases[mi::len(METHODS)]))
+        else:
+            parts += [(method, k, cases[k::3]) for k in range(3)]
+    for method, part, mine in parts:
+        cfg = dict(api='interp', method=method, dim=1, kernel='probe',
+                   names=['a', 'b'], exact=True, rs=RS['probe'],
+                   per=[0, 0, 0])
+        sid = 'u-%s-%d' % (method, part)
+        hs = []
+        for i in range(0, len(mine), per_history):
+            steps = []
+            for j, src in enumerate(mine[i:i + per_history]):
+                lin = claim_linear(src)
+                st = dict(src=src, pts=pts, lin=lin)
+                steps.append(dict(st, act='Reset' if j % 4 == 0
+                                  else 'UpdateArrays'))
+                steps.append(dict(st, act='Interpolate'))
+            hs.append(dict(id='%s-h%d' % (sid, len(hs)),
+                           ue=rng.choice((0, -3, 2)),
+                           org=[rng.randint(-4, 4), 0, 0], family='universe',
+                           steps=steps))
+        sessions.append(dict(sid=sid, cfg=cfg, histories=hs))
+    return sessions, dict(cases=len(cases), states=r['distinct'],
+                          transitions=r['generated'],
+                          methods_per_case=1 if chk.tier == 'quick' else 5)
 
 
 # ---------------------------------------------------------------------------
@@ -289,6 +378,7 @@ def run_session(chk, ses, tag='', mutant=None, timeout=1500):
     todo = list(ses['histories'])
     traces = []
     rnd = 0
+    retries = 0
     while todo:
         base = os.path.join(sc, '%s%s-%d' % (tag, ses['sid'], rnd))
         fi, fo = base + '.json', base + '.ndjson'
@@ -310,6 +400,18 @@ def run_session(chk, ses, tag='', mutant=None, timeout=1500):
         if rc == 0 and len(got) == len(todo):
             break
         memerr = 'MemoryError' in err or 'std::bad_alloc' in err
+        if rc > 0 and 'compyle/ext_module.py' in err and '.lock' in err \
+                and retries < 5:
+            # Several sessions generate the same evaluator source; compyle
+            # serialises the compilation with a lock directory that waiting
+            # processes take over after a timeout - under heavy load the
+            # owner then fails when it releases it.  Nothing of pysph ran:
+            # start again (the module is in the cache by now).
+            retries += 1
+            time.sleep(3)
+            todo = todo[len(got):]
+            rnd += 1
+            continue
         if rc >= 0 and not memerr and what is None:
             raise MachineryError('driver failed rc=%d on session %s %s\n%s'
                                  % (rc, ses['sid'], json.dumps(ses['cfg']),
@@ -368,7 +470,10 @@ def validate(chk, traces, tag='', per_batch=60):
         f = os.path.join(sc, '%sbatch-%d.ndjson' % (tag, b))
         with open(f, 'w') as fp:
             for t in ts[b::nb]:
-                x = dict(id=t['id'], cfg=t['cfg'], names0=t['names0'],
+                cfg = dict((k, t['cfg'][k]) for k in (
+                    'api', 'method', 'dim', 'kernel', 'exact', 'rs', 'ue',
+                    'per'))
+                x = dict(id=t['id'], cfg=cfg, names0=t['names0'],
                          steps=t['steps'])
                 fp.write(json.dumps(x) + '\n')
         files.append(f)
@@ -409,8 +514,9 @@ def judge(chk, sessions, traces, verdicts):
         s['isteps'] += v['isteps']
         for a in v['applied']:
             s['applied'][a] = s['applied'].get(a, 0) + 1
-        if 'bad_history' in v['failed']:
-            raise MachineryError('ill-formed history %s' % v['id'])
+        if 'bad_history' in v['failed'] or 'unrepresentable' in v['failed']:
+            raise MachineryError('ill-formed history %s: %s' % (
+                v['id'], sorted(v['failed'])))
         if not v['failed']:
             continue
         s['failed'] += 1
@@ -579,6 +685,7 @@ def check(chk):
         return selftest(chk)
     phase = {}
     dsg = {}
+    uinfo = {}
     th = None
     if chk.args.replay:
         obj = json.load(open(chk.args.replay))['case']['case']
@@ -588,6 +695,8 @@ def check(chk):
         th = threading.Thread(target=design, args=(chk, dsg))
         th.start()
         sessions = gen_sessions(chk.tier, rng)
+        usess, uinfo = universe_sessions(chk, rng)
+        sessions += usess
     t0 = time.time()
     # C14_SEED_DEFECT=<mutant of c14_driver.py>: demonstration of the
     # VIOLATION / replay path (driver process only; no evidence is kept)
@@ -643,6 +752,7 @@ def check(chk):
         defect_sensitivity=dsg.get('sensitivity', {}),
         traces_validated_against_impl=len(verdicts),
         sessions=len(sessions),
+        universe_through_real_code=uinfo,
         evaluations=sum(v['isteps'] for v in verdicts),
         values_judged=nvals,
         failing_histories=sum(1 for v in verdicts if v['failed']),
